@@ -1206,3 +1206,79 @@ Lemma example_dangling_facts :
   wf example_dangling = true /\ uniq_anchors example_dangling = true /\ shadowed example_dangling = false /\
   has_dangling example_dangling = true /\ has_depends example_dangling = false.
 Proof. vm_compute. repeat split. Qed.
+
+(* ------------------------------------------------------------------ the boolean tests mean equality *)
+
+Lemma ostr_eqb_eq a b : ostr_eqb a b = true -> a = b.
+Proof.
+  destruct a as [x|], b as [y|]; simpl; try discriminate; [|reflexivity].
+  intros H. rewrite (str_eqb_eq _ _ H). reflexivity.
+Qed.
+
+Lemma extra_eqb_eq a : forall b, extra_eqb a b = true -> a = b.
+Proof.
+  induction a as [|[k v] a IH]; intros [|[k' v'] b] H; simpl in H; try discriminate; [reflexivity|].
+  apply andb_true_iff in H. destruct H as [H H3]. apply andb_true_iff in H. destruct H as [H1 H2].
+  rewrite (str_eqb_eq _ _ H1), (str_eqb_eq _ _ H2), (IH _ H3). reflexivity.
+Qed.
+
+Lemma scal_eqb_eq a b : scal_eqb a b = true -> a = b.
+Proof.
+  destruct a as [a1 a2 a3 a4 a5 a6], b as [b1 b2 b3 b4 b5 b6]. unfold scal_eqb. simpl.
+  intros H. repeat (apply andb_true_iff in H; destruct H as [H ?]).
+  rewrite (ostr_eqb_eq _ _ H), (ostr_eqb_eq a2 b2), (ostr_eqb_eq a3 b3), (ostr_eqb_eq a4 b4),
+    (ostr_eqb_eq a5 b5), (extra_eqb_eq a6 b6); auto.
+Qed.
+
+Lemma js_eqb_eq_all :
+  (forall a b, js_eqb a b = true -> a = b) /\ (forall a b, alts_eqb a b = true -> a = b) /\
+  (forall a b, props_eqb a b = true -> a = b).
+Proof.
+  apply js_triple_ind.
+  - intros sc o i p IHo IHi IHp [sc' o' i' p'] H. cbn [js_eqb] in H.
+    apply andb_true_iff in H. destruct H as [H H0].
+    apply andb_true_iff in H. destruct H as [H H1].
+    apply andb_true_iff in H. destruct H as [H H2].
+    rewrite (scal_eqb_eq _ _ H).
+    assert (Eo : o = o').
+    { destruct o as [|l], o' as [|l']; simpl in *; try discriminate; [reflexivity|].
+      rewrite (IHo l eq_refl l'); auto. }
+    assert (Ei : i = i').
+    { destruct i as [|x], i' as [|x']; simpl in *; try discriminate; [reflexivity|].
+      rewrite (IHi x eq_refl x'); auto. }
+    assert (Ep : p = p').
+    { destruct p as [|l], p' as [|l']; simpl in *; try discriminate; [reflexivity|].
+      rewrite (IHp l eq_refl l'); auto. }
+    subst. reflexivity.
+  - intros [|y r] H; simpl in H; [reflexivity|discriminate].
+  - intros x r IHx IHr [|y r'] H; cbn [alts_eqb] in H; [discriminate|].
+    apply andb_true_iff in H. destruct H as [H1 H2]. rewrite (IHx _ H1), (IHr _ H2). reflexivity.
+  - intros [|k y r] H; simpl in H; [reflexivity|discriminate].
+  - intros k x r IHx IHr [|k' y r'] H; cbn [props_eqb] in H; [discriminate|].
+    apply andb_true_iff in H. destruct H as [H H3]. apply andb_true_iff in H. destruct H as [H1 H2].
+    rewrite (str_eqb_eq _ _ H1), (IHx _ H2), (IHr _ H3). reflexivity.
+Qed.
+
+Lemma kind_eqb_eq a b : kind_eqb a b = true -> a = b.
+Proof. destruct a, b; simpl; try discriminate; reflexivity. Qed.
+
+(* what [mirrors] says at a node *)
+Lemma mirrors_meaning s d :
+  mirrors s d = true -> attrs s = d /\ kind_of s = shape_of_keywords d.
+Proof.
+  destruct d as [sc o i p]. intros H.
+  assert (H' : js_eqb (attrs s) (Node sc o i p) && kind_eqb (kind_of s) (shape_kw sc o i p) = true).
+  { destruct s; cbn [mirrors] in H; apply andb_true_iff in H; destruct H as [H _]; exact H. }
+  apply andb_true_iff in H'. destruct H' as [H1 H2]. destruct js_eqb_eq_all as (J & _ & _).
+  split; [apply J; exact H1|apply kind_eqb_eq; exact H2].
+Qed.
+
+(* the path [find_anchor] gives is the path of a sub-schema bearing that anchor *)
+Lemma find_anchor_bears d x t :
+  find_anchor d x = Some t -> exists sc k, In (t, sc, k) (all_nodes d) /\ k_anchor sc = Some x.
+Proof.
+  unfold find_anchor. intros H. apply lookup_In in H. unfold anchor_table in H.
+  apply in_flat_map in H. destruct H as ([[pth sc] k] & Hn & Ha).
+  unfold anchor_entry in Ha. simpl in Ha. destruct (k_anchor sc) as [a|] eqn:Ea; [|contradiction].
+  destruct Ha as [Ha|[]]. injection Ha as -> ->. exists sc, k. auto.
+Qed.
